@@ -16,6 +16,11 @@ checks = {
    text=WHOLE + "decided is a share-nothing argument over every function of the seven packages: package-level variables are never written after init and never aliased; compiling writes neither tree nor compiler; building writes neither builder and retains no writable builder state; token comment slices are fresh; the source-map switch controls only calls into package sourcemap and no sourcemap value reaches the code; the compact path reads no pretty-only state and debug.ToString uses a zero writer; no order-sensitive map range, no clock/random/unsafe/reflect, no goroutines. These imply race-freedom and isolation for every interleaving without observing any schedule - the quantifier the race-detector tests cannot exhaust.",
    ref="DESIGN.md §3 C14",
    note="Trusted: go/types, go/ssa, VTA over CHA (sound without unsafe/reflect, which R14.8 checks), the propagation's treatment of heap-stored references (a retained reference is itself reported). User interceptors and sharing one parser between goroutines are outside the claim."),
+ "C03": dict(
+   technique="table agreement by SSA constant folding of the printer's precedence function against the parser's table; parenthesisation guards evaluated over the finite set of level orderings; node levels vs parser production sites",
+   text=WHOLE + "decided is the printer's own precedence knowledge, which only programmatic trees exercise and no test reaches: the printer-side precedence function equals the parser's binding-power table for every token constant; each expression node reports the level at which the parser produces it; every operand of an operator printer is parenthesised by a pure level comparison that is exhaustively evaluated over all orderings against the associativity-aware requirement, balanced and enclosing the operand. Round-trip shape equality itself is not decided.",
+   ref="DESIGN.md §3 C03",
+   note="Trusted: go/types, go/ssa, the folder (comparisons/constant returns only; anything else is reported unresolved). Token fusion (R3.4) and token order (R3.5) are reported under this id once armed."),
 }
 na_pending = "rule set designed in DESIGN.md §3 but not yet armed in xjscheck; not claimed until it is silent on the unchanged tree and shown to fire on seeded variants"
 all_ids = ["C%02d" % i for i in range(1, 17)]
